@@ -84,8 +84,8 @@ Definition iter_reset (it : fiter) : res fiter :=
     let nxt :=
       if is_scalar (it_shape it) then Some 0
       else if it_vec it then
-        match it_shape it, it_strides it with
-        | s0 :: _, k0 :: _ => Some ((s0 - 1) * k0)
+        match nth_error (it_shape it) (it_vdim it), nth_error (it_strides it) (it_vdim it) with
+        | Some s0, Some k0 => Some ((s0 - 1) * k0)
         | _, _ => None
         end
       else if (length (it_strides it) <? length (it_shape it))%nat then None
@@ -157,3 +157,19 @@ Fixpoint miter_seek (fuel : nat) (want_masked : bool) (mask : list bool) (it : f
     | (it', Panic) => (it', Panic)
     end
   end.
+
+(* FlatIterator.NextValid / NextInvalid (no mask): (index, skip, error?) *)
+Definition flat_next_valid (it : fiter) : fiter * (Z * Z * bool (* error *)) * bool (* panic *) :=
+  if it_done it then (it, (-1, 1, true), false) else
+  if it_scalar it then
+    (mkIter (it_shape it) (it_strides it) (it_track it) (it_next it) (it_last it) (it_size it)
+            true (it_vdim it) (it_rev it) (it_scalar it) (it_vec it), (0, 0, false), false)
+  else
+    match iter_next it with
+    | (it', Ok i) => (it', (i, (if it_rev it then -1 else 1), false), false)
+    | (it', Err) => (it', (-1, (if it_rev it then -1 else 1), true), false)
+    | (it', Panic) => (it', (0, 0, false), true)
+    end.
+
+Definition flat_next_invalid (it : fiter) : Z * Z :=
+  if it_rev it then (-1, - it_last it) else (-1, it_size it - it_last it).
